@@ -31,9 +31,11 @@ type admCase struct {
 	Decoy    string  `json:"decoy"`
 	Epub     epubCfg `json:"epub"`
 	Tgt      string  `json:"tgt"`
+	Then     string  `json:"then"`
 	Expected struct {
 		Detect string `json:"detect"`
 		Open   string `json:"open"`
+		Open2  string `json:"open2"`
 	} `json:"expected"`
 }
 
@@ -147,6 +149,42 @@ func c20Case(i int, raw []byte) Result {
 		return Result{OK: false, Sig: "MACHINERY:io", What: err.Error()}
 	}
 	defer os.Remove(path)
+	if c.Mode == "rewrite" {
+		// first decision on the original bytes, then the bytes under the same name are replaced and it is opened again
+		c2 := c
+		c2.Kind = c.Then
+		data2, err := c20Bytes(&c2)
+		if err != nil {
+			return Result{OK: false, Sig: "MACHINERY:writer", What: err.Error()}
+		}
+		r.Nontrivial, r.Evals = true, 3
+		verdictOf := func() (string, string, error) {
+			t, _, e := tabula.Open(path).Text()
+			if e != nil {
+				return "refused", t, e
+			}
+			return "opens", t, nil
+		}
+		v1, _, e1 := verdictOf()
+		if err := os.WriteFile(path, data2, 0o644); err != nil {
+			return Result{OK: false, Sig: "MACHINERY:io", What: err.Error()}
+		}
+		v2, t2, e2 := verdictOf()
+		r.Events = []Event{{"event": "Admit", "mode": "admit", "kind": c.Kind, "ext": c.Ext, "detect": fmtName(det), "open": v1, "epub": c.Epub},
+			{"event": "Admit", "mode": "admit", "kind": c.Then, "ext": c.Ext, "detect": c.Then, "open": v2, "epub": c.Epub}}
+		feat := fmt.Sprintf("%s-then-%s-as-%s", c.Kind, c.Then, c.Ext)
+		if c.Expected.Open != "unspecified" && v1 != c.Expected.Open {
+			return mk("rewrite-first", feat, fmt.Sprintf("%s bytes named *.%s: %s (%v), expected %s", c.Kind, ext, v1, e1, c.Expected.Open), v1)
+		}
+		if c.Expected.Open2 != "unspecified" && v2 != c.Expected.Open2 {
+			return mk("rewrite-stale", feat, fmt.Sprintf("after the bytes named *.%s were replaced (%s -> %s) the file %s (%v; text %q); a file of these bytes opened for the first time %s",
+				ext, c.Kind, c.Then, v2, e2, t2, c.Expected.Open2), v2)
+		}
+		if v2 == "opens" && !strings.Contains(t2, c20Token) {
+			return mk("rewrite-misparsed", feat, fmt.Sprintf("after the bytes named *.%s were replaced (%s -> %s) the file opened but its text %q lacks the content", ext, c.Kind, c.Then, t2), t2)
+		}
+		return r
+	}
 	txt, _, oerr := tabula.Open(path).Text()
 	verdict := "opens"
 	if oerr != nil {
